@@ -26,7 +26,7 @@ CHECKS = {
  "C07": dict(tech="piece-table penalty definitions in TLA+ (Penalty.tla) with ProxSet derived as exact argmin; TLC decides membership of the code's prox output at every lattice point; dominance / KKT facts (RelTrace) for non-piecewise, block and SLOPE penalties",
              text="The prox is never transcribed: TLC derives the set of global minimisers from the documented penalty table (breakpoints + stationary points, exact rationals) and decides whether the compiled prox returned one of them, for all lattice inputs, steps, weights (zero included) and positivity; other penalties by dominance certificates.", ref="6 C07",
              note="Trusted: piece tables transcribed from docstrings; oracle values for non-piecewise penalties (gated against the spec on the lattice each run); snapping at 1e-10. Lattices are finite."),
- "C08": dict(tech="regular subdifferential [LeftD, RightD] and its distance derived in TLA+ from the piece tables; TLC compares with subdiff_distance/value at every lattice (w, grad); the prox-fixed-point <=> zero-distance law is checked by TLC both on the definition and on the code's outputs",
+ "C08": dict(tech="regular subdifferential [LeftD, RightD] and its distance derived in TLA+ from the piece tables; TLC compares with subdiff_distance/value at every lattice (w, grad); the prox-fixed-point <=> zero-distance law is checked by TLC both on the definition and on the code's outputs; the solvers' own fixed-point residual functions (dist_fix_point_cd / _bcd, multitask) and the group value functions are called directly on working sets that are not arange (fixpoint_fn_eq, value_eq)",
              text="TLC derives one-sided derivatives, subdifferential and distance from the penalty tables and decides equality with the code's score at every lattice point incl. kinks, boundaries, zero weights and infeasible points (distance must be infinite); block penalties against the oracle on rank-encoded facts.", ref="6 C08",
              note="Trusted: as C07."),
  "C09": dict(tech="TLC certifies observed coordinate constants against the exact second derivative of the documented loss (DataVec.tla, rational arithmetic); block/global constants against reference spectral norms as RelTrace facts (bound, tightness, sparse <= dense within power-method accuracy)",
@@ -35,14 +35,14 @@ CHECKS = {
  "C13": dict(tech="TLA+ model of the validation protocol (Validate.tla) over attribute tables introspected from the working tree: TLC enumerates all cells, predicts the _validate verdict (bound to the real one) and the accepted-but-missing-method cells; selected cells executed in isolated workers; outcomes judged by TLC (RelTrace facts + SolverTrace monitor)",
              text="Model checking of the required-attribute protocol over the full composition matrix (14k cells with fit_intercept) + execution of predicted-late-failure cells and a stratified sample (all cells in the thorough tier): refusals must name a really missing method/structure, accepted cells must return finite values meeting the certificate, never die or hang.", ref="6 C13",
              note="Trusted: the explained() vocabulary/regex for 'names the method or structure', the oracle for cert, isolation by process (death/timeout observed by the parent)."),
- "C05": dict(tech="TLA+ history model Path.tla (TLC -simulate generates entry-point x operation histories, invariant WarmSound) replayed on the real entry points; every BaseSolver.solve inside a history is traced and judged by the SolverTrace monitor against the problem of THAT step (clauses cert, buffer); sentinels from CDCore counterexamples",
+ "C05": dict(tech="TLA+ history model Path.tla (TLC -simulate generates entry-point x operation histories, invariant WarmSound) replayed on the real entry points; every BaseSolver.solve inside a history is traced and judged by the SolverTrace monitor against the problem of THAT step (clauses cert, buffer); design model PathCore.tla of the path buffers (copies vs views, intercept in the warm fit; two refuted variants); what path() returns is judged against the per-step solutions (path_coefs_are_the_step_solutions, path_cert, path_alphas); sentinels from CDCore counterexamples",
              text="Histories of direct solves reusing buffers, path() over grids in every order from every coef_init shape, and warm_start refits after hyper-parameter changes are generated by TLC and executed; TLC judges each step's certificate against its own alpha and the consistency of the caller's buffers on return.", ref="6 C05"),
- "C19": dict(tech="TLA+ placement model Degenerate.tla (TLC -simulate) + permanent sentinel placements; real runs in isolated workers; SolverTrace monitor clauses finite, cert, zero_col_zero, explained_error, terminates, alive",
+ "C19": dict(tech="TLA+ placement model Degenerate.tla (TLC -simulate) + permanent sentinel placements; real runs in isolated workers; SolverTrace monitor clauses finite, cert, zero_col_zero, explained_error, terminates, alive; placements include warm starts with weight on null columns, CSC storage with explicitly stored zeros and the primal-dual solver",
              text="TLC generates placements of zero / duplicated / constant / rescaled columns, zero or constant targets, n<p, single feature or group across solver compositions and storages; every run is watched for hangs and judged by TLC.", ref="6 C19"),
  "C20": dict(tech="TLA+ index model Bounds.tla (design constants satisfy InBounds; historical slicing conventions must violate it) + every scenario executed twice in fresh processes, with numba's bounds checker and without; RelTrace facts no_index_error, same_result",
              text="Index expressions of kernels are model-checked on lengths; real compositions (TLC-generated scenarios + sentinels from the model's counterexamples) run under NUMBA_BOUNDSCHECK=1 and unchecked, and TLC judges the pair.", ref="6 C20",
              note="Trusted: numba's own bounds checker; process isolation. Compositions with randomly started power-method constants are compared for errors only."),
- "C10": dict(tech="TLA+ representation model Storage.tla (TLC enumerates entry point x composition x container x dtype exhaustively, with the outcome the documentation promises) replayed on the real code against the dense-Fortran-float64 run; RelTrace facts same, not_refused, refuse_explained",
+ "C10": dict(tech="TLA+ representation model Storage.tla (TLC enumerates entry point x composition x container x dtype exhaustively, with the outcome the documentation promises) replayed on the real code against the dense-Fortran-float64 run; RelTrace facts same, not_refused, refuse_explained; scenarios also vary how a raw solve is started (cold, warm, warm on a column without stored entries), contrast-coded designs and CSC with stored zeros",
              text="The full finite product of representations and entry points is enumerated by TLC; each is executed and TLC judges equality with the canonical run (tolerance-based, float32 relaxed) or the explanatory refusal.", ref="6 C10",
              note="Trusted: the dense-F-float64 run as reference (covered by C01), the keyword rule for 'names the representation'. Quick tier: stratified sample of the enumerated product; thorough: all of it."),
  "C02": dict(tech="relation catalogue Relations.tla[Family=C02] (TLC enumerates family x applicable skglm solver/estimator x storage x intercept exhaustively) replayed against independent references (scikit-learn, celer, an LP for the quantile loss, the scaled-Lasso fixed point for sqrt-Lasso); RelTrace facts agree / unique_same_w judged by TLC",
@@ -50,7 +50,7 @@ CHECKS = {
  "C11": dict(tech="TLA+ transcription of every estimator docstring as an objective descriptor (Estimator.tla, TLC -simulate over constructor arguments) + real fits; the oracle evaluates the first-order residual of the DOCUMENTED objective at (coef_, intercept_); RelTrace facts stationary, primal_image, dual_feasible, refused_as_documented, intercept_param",
              text="Constructor-argument tuples and the objective the documentation promises come from the spec; TLC judges stationarity of the fitted attributes for that objective (dual feasibility and primal image for LinearSVC).", ref="6 C11",
              note="Trusted: transcription of the class docstrings in Estimator.tla; harness/oracle; fits at tol 1e-9 judged at 1e-6*scale."),
- "C12": dict(tech="TLA+ model of label encoding / one-vs-rest / renaming (Classifier.tla, exhaustive enumeration of label alphabets x class counts x renamings x estimators) + real fits incl. per-class binary fits and fits on renamed labels; RelTrace facts predict_is_argmax, decision_is_linear, proba_*, rename, ovr_row_equals_binary_fit",
+ "C12": dict(tech="TLA+ model of label encoding / one-vs-rest / renaming (Classifier.tla, exhaustive enumeration of label alphabets x class counts x renamings x estimators) + real fits incl. per-class binary fits and fits on renamed labels; RelTrace facts predict_is_argmax, decision_is_linear, proba_*, rename, ovr_row_equals_binary_fit; renamed fits also as warm re-fits of the same object, an imbalanced null-model regime, probabilities far from the data",
              text="TLC enumerates the scenarios and judges, for each fitted classifier, predictions against classes_[argmax decision], probabilities, the effect of renaming the labels, and one-vs-rest rows against the separately fitted binary models (intercepts included).", ref="6 C12",
              note="Trusted: numpy recomputation of X coef^T + intercept; binary fits of the same estimator as OvR reference; separated clusters with n > p."),
  "C14": dict(tech="relation catalogue Relations.tla[Family=C14] (21 reduction kinds x storage x intercept, exhaustive) replayed on the real code; RelTrace fact agree (objective and, when unique, coefficients); definition-level coincidence on the exact lattices by PenVec/DataVec",
